@@ -44,7 +44,20 @@ func vItoa(n int64) string {
 
 type vStringer interface{ String() string }
 
-func vFormatArg(a interface{}) string {
+func vFormatArg(a interface{}, verb byte) string {
+	if verb == 'd' || verb == 'x' {
+		// integer verbs print the number even when the type has an Error/String method
+		switch x := a.(type) {
+		case KError:
+			return vItoa(int64(x))
+		case CompressionCodec:
+			return vItoa(int64(x))
+		case RequiredAcks:
+			return vItoa(int64(x))
+		case ConfigResourceType:
+			return vItoa(int64(x))
+		}
+	}
 	switch x := a.(type) {
 	case nil:
 		return "<nil>"
@@ -110,7 +123,7 @@ func vSprintf(format string, a ...interface{}) string {
 			continue
 		}
 		if ai < len(a) {
-			out += vFormatArg(a[ai])
+			out += vFormatArg(a[ai], format[i])
 			ai++
 		} else {
 			out += "%!(MISSING)"
@@ -128,7 +141,7 @@ func vSprint(a ...interface{}) string {
 		if i > 0 {
 			out += " "
 		}
-		out += vFormatArg(x)
+		out += vFormatArg(x, 'v')
 	}
 	return out
 }
